@@ -232,6 +232,18 @@ CHECKS = {
         "The fit inside Project.optimize is replaced by a genuine pre-computed Result; depth 3 (quick) / 4 (thorough).",
         "DESIGN.md section 4 / C18",
     ),
+    "C17": (
+        "exploration",
+        "E1",
+        "enumeration of generator models, result configurations x SavingOptions x target kinds (saved, loaded, moved, re-saved) "
+        "and dataset shapes x coordinate kinds x formats, with specification / bit-level / relative-reference oracles",
+        "Every generator model is saved and loaded (identical specification, bit-identical objective, idempotent second "
+        "save); every enumerated result is saved with every SavingOptions / target combination, loaded, moved, loaded and "
+        "re-saved with the source deleted (parameters, statistics, histories, bit-equal datasets, only relative resolving "
+        "references); every dataset shape and coordinate kind goes through netCDF (bit-equal) and both ASCII layouts.",
+        "Fields declared exclude_from_dict (jacobian, covariance, cost, additional_penalty) are not part of a saved result.",
+        "DESIGN.md section 4 / C17",
+    ),
 }
 
 PENDING_REASON = "check under construction in this round - not claimed until its check runs clean on the unchanged tree"
@@ -272,7 +284,7 @@ def main():
             "add_only": True,
         },
         "engines": [
-            {"name": "E1", "path": "vf/core.py", "serves_properties": ["C01", "C02", "C03", "C04", "C05", "C06", "C07", "C08", "C09", "C11", "C13", "C14", "C16", "C20"], "kind_free_text": "bounded exhaustive input-space enumeration with reference oracles, 16 workers"},
+            {"name": "E1", "path": "vf/core.py", "serves_properties": ["C01", "C02", "C03", "C04", "C05", "C06", "C07", "C08", "C09", "C11", "C13", "C14", "C16", "C17", "C20"], "kind_free_text": "bounded exhaustive input-space enumeration with reference oracles, 16 workers"},
             {"name": "E2", "path": "vf/explore.py", "serves_properties": ["C10", "C12", "C18", "C19"], "kind_free_text": "explicit-state BFS over event histories replayed on fresh real objects, full-state digests"},
             {"name": "E3", "path": "vf/checks/c15.py", "serves_properties": ["C15"], "kind_free_text": "deviation-bounded fault enumerator (all single / pairs of deviations from the fault-free environment), forked watchdog"},
             {"name": "E5", "path": "vf/prange.py", "serves_properties": ["C10"], "kind_free_text": "partial-order (conflict relation) exploration of numba prange kernels on py_func with recording array proxies"},
